@@ -7,7 +7,7 @@
    Everything about strings/tokens is proved by induction; finite tables by reflection. *)
 From Coq Require Import String.
 From CKC Require Import Base.Prelude Base.Reflect Spec.Layout Model.Card Model.Binary Model.Parse.
-From CKC Require Import Proofs.CardFacts Proofs.C10 Proofs.C11.
+From CKC Require Import Proofs.CardBase Proofs.CreateFacts Proofs.C11.
 From CKC Require Import Gen.Consts Gen.Chars Gen.Enums.
 Open Scope N_scope.
 
